@@ -20,12 +20,14 @@ const (
 	verifFeatBreaker = 1
 	verifFeatLimiter = 2
 	verifFeatPassive = 4
+	verifFeatInterim = 8 // scripted backends may send an interim 103 before the final status
 )
 
 // verifFullLB builds a balancer with n scripted backends and the selected features.
 func verifFullLB(strategy, n, features int) (*LoadBalancer, []*Backend) {
 	lb := verifBareLB(strategy)
 	lb.metricsCollector = metrics.NewMetricsCollector()
+	verifNoInterim = features&verifFeatInterim == 0
 	for k := range verifProxyHits {
 		delete(verifProxyHits, k)
 	}
@@ -103,11 +105,13 @@ func VerifC13Accounting(strategy, features, k, arbHealth int) {
 		}
 	}
 	sawNoBackend, sawAbort := false, false
+	okSeen, failedSeen, limitedSeen := 0, 0, 0
 	for i := 0; i < k; i++ {
 		if i > 0 && verifrt.Bool("timePasses") {
 			verifrt.Advance(time.Duration(verifrt.IntRange("dt", 1, 1<<36)))
 		}
 		rec := &verifBodyRecorder{verifRecorder: verifNewRecorder()}
+		hitsBefore := verifProxyHits[bs[0].Name] + verifProxyHits[bs[1].Name]
 		aborted, crashed := verifServe(lb, rec, rec.finish, verifRequest("10.1.2.3:4711"))
 		verifrt.Assert(!crashed, "no panic other than the re-raised abort")
 		if aborted {
@@ -120,7 +124,21 @@ func VerifC13Accounting(strategy, features, k, arbHealth int) {
 		verifrt.Known("C13-abort-unrecorded", sawAbort)
 		m := lb.metricsCollector.GetMetrics()
 		verifrt.Assert(m.TotalRequests == uint64(i+1), "total_requests equals the number of requests that reached the balancer")
-		verifrt.Assert(m.SuccessfulRequests+m.FailedRequests+m.RateLimitedRequests == uint64(i+1), "every request is counted in exactly one of successful / failed / rate-limited")
+		if rec.wroteHeader && !aborted {
+			hitsNow := verifProxyHits[bs[0].Name] + verifProxyHits[bs[1].Name]
+			dispatched := hitsNow > hitsBefore
+			switch {
+			case dispatched && rec.status < 500:
+				okSeen++
+			case dispatched:
+				failedSeen++
+			case rec.status == http.StatusTooManyRequests && strings.HasPrefix(string(rec.body), "Rate limit"):
+				limitedSeen++
+			default: // answered locally with an error (breaker rejection, no healthy backend)
+				failedSeen++
+			}
+			verifrt.Assert(verifrt.Implies(!sawAbort, m.SuccessfulRequests == uint64(okSeen) && m.FailedRequests == uint64(failedSeen) && m.RateLimitedRequests == uint64(limitedSeen)), "requests are classified by their outcome: proxied <500 successful, proxied >=500 or locally refused failed, limiter 429 rate-limited")
+		}
 		for _, b := range bs {
 			var perBackend uint64
 			var mirror int32
